@@ -9,13 +9,61 @@ fn usage() -> ! {
 fn main() {
     vv::util::install_panic_hook();
     let args: Vec<String> = std::env::args().collect();
-    if args.len() < 3 {
+    if args.len() < 3 || (args[1] == "fuzzreplay" && args.len() < 4) {
         usage();
     }
     let seed: u64 = std::env::var("VERIF_SEED").ok().and_then(|s| s.trim().parse().ok()).unwrap_or(0);
     let shards: usize = std::env::var("VERIF_SHARDS").ok().and_then(|s| s.parse().ok()).unwrap_or(16);
-    let code = if args[1] == "replay" {
-        let text = std::fs::read_to_string(&args[2]).expect("replay file readable");
+    let code = if args[1] == "fuzzreplay" {
+        // check fuzzreplay <target> <artifact>: raw libFuzzer input through the same decoder and oracle
+        let data = std::fs::read(&args[3]).expect("artifact readable");
+        let prop = match args[2].as_str() {
+            "fuzz_join" => "C06",
+            "fuzz_handles" => "C14",
+            _ => "C01",
+        };
+        match vv::util::guarded(|| vv::fuzzdec::replay(&args[2], &data)) {
+            Ok(Ok(())) => {
+                println!("REPLAY property={} passed (no violation on this tree)", prop);
+                0
+            }
+            Ok(Err(m)) => {
+                println!("--- fuzz input reproduces ---\n{}", m);
+                println!("VIOLATION property={} replay={}", prop, args[3]);
+                1
+            }
+            Err(p) => {
+                println!("--- fuzz input panics ---\n{}", p);
+                println!("VIOLATION property={} replay={}", prop, args[3]);
+                1
+            }
+        }
+    } else if args[1] == "replay" {
+        let raw = std::fs::read(&args[2]).expect("replay file readable");
+        let fname = std::path::Path::new(&args[2]).file_name().map(|f| f.to_string_lossy().into_owned()).unwrap_or_default();
+        if fname.starts_with("fuzz_") && serde_json::from_slice::<serde_json::Value>(&raw).is_err() {
+            // raw libFuzzer artifact saved as <target>-<hash>.bin
+            let target = fname.split('-').next().unwrap_or("").to_string();
+            let prop = match target.as_str() {
+                "fuzz_join" => "C06",
+                "fuzz_handles" => "C14",
+                _ => "C01",
+            };
+            let code = match vv::util::guarded(|| vv::fuzzdec::replay(&target, &raw)) {
+                Ok(Ok(())) => {
+                    println!("REPLAY property={} passed (no violation on this tree)", prop);
+                    0
+                }
+                Ok(Err(m)) | Err(m) => {
+                    println!("--- fuzz input reproduces ---\n{}", m);
+                    println!("VIOLATION property={} replay={}", prop, args[2]);
+                    1
+                }
+            };
+            vv::util::cleanup_scratch_base();
+            std::process::exit(code);
+        }
+        let text = String::from_utf8_lossy(&raw).into_owned();
         let v: serde_json::Value = serde_json::from_str(&text).expect("replay file is JSON");
         let id = v.get("property").and_then(|p| p.as_str()).unwrap_or("").to_string();
         match vv::props::replay(&id, &v) {
